@@ -197,6 +197,22 @@ def c04_sweep(ctx, n):
         pixel = None if shape is None else nps.uniform(-0.4, 0.4, shape)
         left = rng.random() < 0.4
         sens = magpy.Sensor(position=pos, orientation=ori, pixel=pixel, handedness="left" if left else "right")
+        if pixel is not None and np.ndim(pixel) > 1 and rng.random() < 0.35:
+            # the pixel array is edited IN PLACE through the getter after the sensor was built — on the sensor itself, on a copy()
+            # of it, or on a sensor whose pixel came in as a non-contiguous array: the sensor reads the field at the pixels it
+            # reports now
+            how = rng.choice(["same", "copy", "non-contiguous", "evaluated-first"])
+            if how == "copy":
+                sens = sens.copy()
+            elif how == "non-contiguous":
+                big = nps.uniform(-0.4, 0.4, pixel.shape[::-1] if pixel.ndim == 2 else (3,) + pixel.shape[:-1][::-1])
+                sens = magpy.Sensor(position=pos, orientation=ori, pixel=big.T, handedness="left" if left else "right")
+            elif how == "evaluated-first":
+                magpy.getB(src, sens)
+            sens.pixel[..., rng.randrange(3)] += 0.05
+            sens.pixel[tuple(0 for _ in range(sens.pixel.ndim - 1))] = nps.uniform(-0.4, 0.4, 3)
+            pixel = np.array(sens.pixel)
+            kinds["pixel-edited-in-place:" + how] = kinds.get("pixel-edited-in-place:" + how, 0) + 1
         B = magpy.getB(src, sens, squeeze=False)  # (1, M, 1, pix..., 3)
         M = B.shape[1]
         px = np.zeros((1, 3)) if pixel is None else pixel.reshape(-1, 3)
@@ -316,6 +332,27 @@ def c05_sweep(ctx, n):
         if not ok:
             fails.append({"key": "superposition", "desc": "collection / sumup result differs from the explicit sum of single-source calls",
                           "replay": {"entries": [repr(e) for e in entries], "field": field}})
+        # several bodies of the SAME geometry (copies placed elsewhere) with different polarization, next to each other in one call
+        # (list, Collection, sumup), observers inside each of them: superposition and linearity in each body's own polarization
+        if i % 4 == 1:
+            from oracles.sources import MAGNETS, interior_points
+            mcls = rng.choice(["TriangularMesh", "TriangularMesh"] + MAGNETS)
+            proto = make(mcls, nps)
+            ip = interior_points(mcls, proto, nps, 1)
+            if ip is not None:
+                bodies = [proto.copy(polarization=nps.uniform(-1, 1, 3), position=(3.0 * j, 0.5 * j, 0)) for j in range(rng.choice([2, 3]))]
+                inner_obs = np.array([np.asarray(ip)[0] + np.array([3.0 * j, 0.5 * j, 0]) for j in range(len(bodies))])
+                together = magpy.getB(bodies, inner_obs, squeeze=False)[:, 0, 0]
+                alone = np.array([magpy.getB(b, inner_obs, squeeze=False)[0, 0, 0] for b in bodies])
+                coll_sum = magpy.getB(magpy.Collection(*[b.copy() for b in bodies]), inner_obs)
+                scale_ = float(np.max(np.abs(alone))) + 1e-300
+                lin = bodies[-1].copy(polarization=2.5 * np.asarray(bodies[-1].polarization))
+                doubled = magpy.getB(bodies[:-1] + [lin], inner_obs, squeeze=False)[-1, 0, 0]
+                if not (_close(together, alone, scale_, 1e-7) and _close(coll_sum, alone.sum(axis=0), scale_, 1e-7) and _close(doubled, 2.5 * alone[-1], scale_, 1e-7)):
+                    fails.append({"key": f"superposition:same-geometry:{mcls}", "desc": "bodies of the same geometry with different polarization evaluated in one call: a body's row is not its own field / "
+                                  "the collection is not the sum / the row is not linear in that body's polarization (observers inside the bodies)",
+                                  "replay": {"class": mcls, "polarizations": [np.asarray(b.polarization).tolist() for b in bodies], "observers": inner_obs.tolist()}})
+                done += 1
         # the tree is edited between calls: the collection's field must follow its *current* tree
         if i % 2 == 0:
             inner = magpy.Collection(make(rng.choice(CLASSES), nps), make(rng.choice(CLASSES), nps))
